@@ -3232,3 +3232,26 @@ Q(name="e2_assembler_insert_no_empty_range", props=["C01", "C03"], func=r"assemb
   pre=lambda c: and_(ule(c.inp("_2", BV64), bv(1 << 62)), ule(c.inp("_3.1", BV64), bv(1 << 32))), post=ai_post,
   bounds="every offset below 2^62 and chunk length below 2^32, every assembler state: the range recorded as received in unordered mode (RangeSet::replace) is exactly the chunk's extent offset..offset+len and is never empty - a zero-length STREAM frame, which a peer may send anywhere, must not enter the set, where an empty range makes later overlapping data look new and deliver bytes a second time; the set operations themselves are opaque",
   replay=("assembler_empty_frame_native", lambda m: [dict(x=0)]))
+
+
+# ------------------------------------------------------------------ C08: a connection that is already draining does not report a second reason
+def er_post(c, p):
+    st = p.p.state
+    if p.p.outcome not in ("stop", "return"):
+        return "true"
+    err_k = _conn(c, "error")
+    sd = c.inp(_conn(c, "state") + "#discr", I64)
+    E = c.ex.enums["State"].index if "State" in c.ex.enums else c.ex.enums["connection::State"].index
+    draining = or_(eq(sd, bv(E("Draining"))), eq(sd, bv(E("Drained"))))
+    # was `self.error` written on this path?
+    written = c.ex.origin(st, err_k) != err_k or (err_k + "#discr") in st.store
+    return not_(draining) if written else "true"
+
+
+Q(name="e2_handle_packet_error_block_slice", props=["C08"], func=r"connection/mod\.rs:\d+:1: \d+:16>::handle_packet$",
+  src="connection/mod.rs", within=r"^    fn handle_packet\(", start_line=[r"^        if let Err\(conn_err\) = result \{", r"(?#after)// State transitions for error cases"],
+  end_line=[r"if !was_closed && self\.state\.is_closed\(\)"],
+  allowed_panics=r".", check_stop=True, ignore_untranslatable=r"fmt::rt::Argument|Transmute",
+  functions=["Connection::handle_packet (slice: the error-state transitions after a packet was processed)"], pre=lambda c: "true", post=er_post,
+  bounds="the block that turns a packet-processing error into a state transition, from an ARBITRARY state: the reason handed to the application (`self.error`) is (re)assigned only if the connection was not already Draining or Drained - a draining connection has reported its peer's close, and a stateless reset or garbage arriving during the drain period must not produce a second ConnectionLost; a connection closed LOCALLY (state Closed, nothing reported yet) still learns of a reset, as the crate's own client_stateless_reset test expects",
+  replay=("conn_second_reason_native", lambda m: [dict(x=0)]))
